@@ -16,7 +16,7 @@ MANIFEST_INFO = {
     "engine": "A",
     "design_ref": "DESIGN.md section 5, C02",
     "technique": "stateless deviation-bounded DFS over stage/cleanup/fixture behaviours of generated TestCase programs whose cleanups, patches and (nested) fixtures are registered at every site (setUp before/after the up-call, test, tearDown, inside another cleanup); execution log compared with the stack-discipline lifecycle model; second run() of the same instance replayed from memoised decisions",
-    "level_text": "For every ordered selection of up to 3 registrations from 15 kinds (cleanup at 4 sites, cleanup registered by a cleanup, patch of an existing/missing attribute incl. double patch, fixture at 3 sites, nested fixture) and every program with at most 2 (quick) / 3 (thorough) deviating stages or fixture hooks, the real run is compared with the model: setUp first, test+tearDown iff setUp returned, then the cleanup stack popped to empty (each registration exactly once, LIFO, BaseExceptions included), patched attributes restored, and a second run() of the same instance produces the same log and outcome.",
+    "level_text": "For every ordered selection of up to 3 registrations from 16 kinds (cleanup at 4 sites, cleanup registered by a cleanup, patch of an existing/missing attribute incl. double patch, fixture at 3 sites, nested fixture) and every program with at most 2 (quick) / 3 (thorough) deviating stages or fixture hooks, the real run is compared with the model: setUp first, test+tearDown iff setUp returned, then the cleanup stack popped to empty (each registration exactly once, LIFO, BaseExceptions included), patched attributes restored, and a second run() of the same instance produces the same log and outcome.",
     "level_note": "Programs always up-call; fixtures use the fixtures 4.x _setUp protocol; attribute writes on the patched object are logged by the object itself.",
 }
 
@@ -25,6 +25,7 @@ REGS = (
     "cleanup@setUp",
     "cleanup@test",
     "cleanup@tearDown",
+    "cleanup_kw@test",
     "cleanup_by_cleanup@setUp",
     "cleanup_by_cleanup@test",
     "patch_existing@setUp",
@@ -155,6 +156,8 @@ def build_actions(regs):
         rid = str(n)
         if kind == "cleanup":
             actions.setdefault(site, []).append(("cleanup", rid))
+        elif kind == "cleanup_kw":
+            actions.setdefault(site, []).append(("cleanup_kw", rid))
         elif kind == "cleanup_by_cleanup":
             actions.setdefault(site, []).append(("cleanup", rid))
             actions.setdefault("c:" + rid, []).append(("cleanup", rid + "b"))
@@ -297,7 +300,7 @@ def meta(tier):
     return {
         "technique": MANIFEST_INFO["technique"],
         "rule": "for every registration selection: every choice sequence with <= bound deviating stages / fixture hooks; each execution runs the instance twice; non-trivial = >= 1 deviation; distinct = distinct (registrations, execution log, outcome)",
-        "bounds": {"registrations": "all ordered selections of <=2 of 15 kinds; triples core x any x core (quick) / all triples plus all pairs between two plain cleanups (thorough)", "deviations": 2 if tier == "quick" else 3, "stage_kinds": list(KINDS)},
+        "bounds": {"registrations": "all ordered selections of <=2 of 16 kinds; triples core x any x core (quick) / all triples plus all pairs between two plain cleanups (thorough)", "deviations": 2 if tier == "quick" else 3, "stage_kinds": list(KINDS)},
         "assumptions": ["programs always up-call", "cleanup functions registered by the harness are distinct objects with unique ids"],
     }
 
